@@ -425,6 +425,14 @@ func (r *Reconciler) reconcileAbort(ctx context.Context, proposal *configapi.Pro
 			return controller.Result{}, nil
 		}
 
+	case configapi.ProposalAbortPhase_ABORTED:
+		// The abort moved the committed index past this proposal: wake the successor that waits for it
+		if proposal.Status.NextIndex != 0 {
+			return controller.Result{
+				Requeue: controller.NewID(proposalstore.NewID(proposal.TargetID, proposal.Status.NextIndex)),
+			}, nil
+		}
+		return controller.Result{}, nil
 	}
 	return controller.Result{}, nil
 }
